@@ -186,6 +186,29 @@ Proof. exact from_commitment_p_total. Qed.
 Theorem C10_from_commitment_needs_the_guard : forall pt_ok sl, (exists w, read33 pt_ok sl = Panic w) <-> length sl <> 33%nat.
 Proof. exact read33_oob. Qed.
 
+(* the small fallible integer constructors (u32 arguments range over all of N here: the statements hold a fortiori below 2^32):
+   Sequence::from_seconds_floor / from_seconds_ceil return Err exactly beyond the last representable interval and otherwise the exact
+   quotient / ceiling or-ed with LOCK_TYPE_MASK; nothing in them can overflow *)
+Theorem C10_seq_from_seconds_floor : forall s v, seq_from_seconds_floor s = Val v <-> s < 65536 * 512 /\ v = N.lor (s / 512) C10_SEQ_LOCK_TYPE_MASK.
+Proof. exact seq_floor_spec. Qed.
+Theorem C10_seq_from_seconds_floor_err : forall s, (exists e, seq_from_seconds_floor s = Fail e) <-> 65536 * 512 <= s.
+Proof. exact seq_floor_err. Qed.
+Theorem C10_seq_from_seconds_ceil : forall s v, seq_from_seconds_ceil s = Val v <-> s <= 65535 * 512 /\ v = N.lor ((s + 511) / 512) C10_SEQ_LOCK_TYPE_MASK.
+Proof. exact seq_ceil_spec. Qed.
+Theorem C10_seq_from_seconds_ceil_err : forall s, (exists e, seq_from_seconds_ceil s = Fail e) <-> 65535 * 512 < s.
+Proof. exact seq_ceil_err. Qed.
+Theorem C10_div_ceil_is_ceiling : forall s, let i := u32_div_ceil s 512 in s <= 512 * i /\ (i = 0 \/ 512 * (i - 1) < s).
+Proof. exact u32_div_ceil_spec. Qed.
+(* LockTime::from_height / from_time (and Height / Time::from_consensus): Ok n exactly on their side of LOCK_TIME_THRESHOLD *)
+Theorem C10_locktime_constructors : forall n, (lt_from_height n = Val n <-> n < 500000000) /\ (lt_from_time n = Val n <-> 500000000 <= n)
+  /\ ((exists e, lt_from_height n = Fail e) <-> 500000000 <= n) /\ ((exists e, lt_from_time n = Fail e) <-> n < 500000000).
+Proof. exact lt_height_time_spec. Qed.
+Example C10_ctor_examples :
+  seq_from_seconds_ceil 4294967295 = Fail (E "overflow") /\ seq_from_seconds_ceil 33553920 = Val (N.lor 65535 4194304) /\ seq_from_seconds_ceil 33553921 = Fail (E "overflow")
+  /\ seq_from_seconds_ceil 1 = Val (N.lor 1 4194304) /\ seq_from_seconds_floor 33554431 = Val (N.lor 65535 4194304) /\ seq_from_seconds_floor 33554432 = Fail (E "overflow")
+  /\ ecdsa_from_standard 0x81 = Val 0x81 /\ ecdsa_from_standard 0 = Fail (E "nonstandard") /\ psbt_schnorr_hash_ty 0x100 = None /\ psbt_schnorr_hash_ty 0x83 = Some 0x83.
+Proof. repeat split; reflexivity. Qed.
+
 (* ================================================================================================ non-vacuity *)
 Example C10_nonvacuous :
   (* xpub reconciliation: other a proper suffix of self -> keep; self a proper suffix of other -> replace; the former F2 witness -> conflict *)
@@ -213,6 +236,7 @@ Check (C10_total_blind_select : forall outs w, blind_select outs <> Panic w).
 Check (C10_total_locktime : forall fallback inputs w, locktime_p fallback inputs <> Panic w).
 Check (C10_total_finalize : forall b s, finalize_p b <> Taproot.Panic s).
 Check (C10_total_minimum_value : forall v opret prf x, (forall p, prf = Some p -> rangeproof_ok p = true) -> minimum_value_p v opret prf <> Panic x).
+Check (C10_seq_from_seconds_ceil : forall s v, seq_from_seconds_ceil s = Val v <-> s <= 65535 * 512 /\ v = N.lor ((s + 511) / 512) C10_SEQ_LOCK_TYPE_MASK).
 Check (C10_total_from_commitment : forall pt_ok sl w, from_commitment_p pt_ok sl <> Panic w).
 Print Assumptions C10_alloc_bound_tx.
 Print Assumptions C10_alloc_bound_block.
@@ -227,3 +251,4 @@ Print Assumptions C10_builder_inv.
 Print Assumptions C10_total_finalize.
 Print Assumptions C10_total_pset_values.
 Print Assumptions C10_total_templates.
+Print Assumptions C10_seq_from_seconds_ceil.
